@@ -670,7 +670,7 @@ _STD_VARIANTS = {"None": 0, "Some": 1, "Ok": 0, "Err": 1, "Continue": 0, "Break"
                  "Included": 0, "Excluded": 1, "Unbounded": 2}
 
 
-def decision_paths(fn, limit=400, with_calls=False, with_env=False):
+def decision_paths(fn, limit=400, with_calls=False, with_env=False, start=0, stops=(), free_locals=False):
     """Enumerate the acyclic entry→return paths of a loop-free body, evaluating assignments
     flow-sensitively into expression trees (parameters stay symbolic, calls stay opaque).
     Returns [(conditions, result)] with conditions = [(discr_expr, chosen_value or None for `otherwise`,
@@ -687,6 +687,8 @@ def decision_paths(fn, limit=400, with_calls=False, with_env=False):
             e = env[l]
         elif 1 <= l <= fn.arg_count:
             e = ("arg", l, fn.names.get(l))
+        elif free_locals:
+            e = ("free", l, fn.names.get(l))   # defined before the region (loop-carried or captured state)
         else:
             raise Inconclusive("%s: read of a local without a definition on this path (_%d)" % (fn.path, l))
         for el in projs:
@@ -774,6 +776,10 @@ def decision_paths(fn, limit=400, with_calls=False, with_env=False):
     def go(bb, env, conds, seen):
         if len(out) > limit:
             raise Inconclusive("%s: too many paths" % fn.path)
+        if bb in stops and seen:
+            # region mode (e.g. one loop iteration): the path ends when it reaches a stop block
+            out.append((conds, ("stop", bb), dict(env)))
+            return
         if bb in seen:
             raise Inconclusive("%s is not loop-free" % fn.path)
         seen = seen | {bb}
@@ -821,7 +827,9 @@ def decision_paths(fn, limit=400, with_calls=False, with_env=False):
         t = blk["term"]
         k = t["k"]
         if k == "return":
-            if with_env:
+            if stops:
+                out.append((conds, ("return", env.get(0)), dict(env)))
+            elif with_env:
                 out.append((conds, env.get(0), dict(env)))
             elif with_calls:
                 out.append((conds, env.get(0), list(env.get("#calls", ()))))
@@ -867,5 +875,5 @@ def decision_paths(fn, limit=400, with_calls=False, with_env=False):
             go(t["target"], env, conds, seen)
         # unreachable / resume: path ends without a result
 
-    go(0, {}, [], frozenset())
+    go(start, {}, [], frozenset())
     return out
